@@ -77,7 +77,8 @@ class Rpms(productmd.common.MetadataBase):
         del self.rpms[variant]
 
     def _check_nevra(self, nevra):
-        if ":" not in nevra:
+        # the epoch is part of the file name; a colon in a directory (host:/path, URL) is not one
+        if ":" not in nevra.rsplit("/", 1)[-1]:
             raise ValueError("Missing epoch in N-E:V-R.A: %s" % nevra)
 
         try:
